@@ -26,6 +26,16 @@ Theorem C06_climb_yield :
 Proof. exact climb_yield. Qed.
 Print Assumptions C06_climb_yield.
 
+(* "conventional" spelled out declaratively: in the climbing parser's tree no operand
+   of an operator is an unparenthesised application that binds looser -- a left
+   operand's operator has higher priority, or the same priority and is left
+   associative; a right operand's operator has higher priority, or the same priority
+   when the parent is right associative ([prec_ok], also evaluated on the impl's trees) *)
+Theorem C06_climb_prec_ok :
+  forall pr left fuel ws t, climb pr left fuel ws = Some t -> prec_ok pr left t = true.
+Proof. exact climb_prec_ok. Qed.
+Print Assumptions C06_climb_prec_ok.
+
 (* The model of the shift/reduce resolution (tables/__init__.py:333-376), for every
    grammar, meta-data assignment and state: when the reduction of a non-empty
    production p meets a cell holding the SHIFT of a symbol whose
